@@ -40,7 +40,14 @@ HasRealUnion(t) == CASE t.kind = "or" -> Cardinality({i \in DOMAIN t.items : ~Is
                      [] t.kind = "reference" /\ t.name \in AName /\ t.name # "LSPAny" -> HasRealUnion(ADef[t.name].type)
                      [] OTHER -> FALSE
 UnionHolder(r) == r.kind = "structure" /\ \E i \in DOMAIN FlatM[r.name] : HasRealUnion(FlatM[r.name][i].type)
-KindOK(r) == RootSel = "all" \/ RootSel = r.kind \/ (RootSel = "unionholder" /\ UnionHolder(r))
+\* responses whose result is a union with at least two array alternatives (hooks decide by looking at elements)
+RECURSIVE ArrayAlts(_)
+ArrayAlts(t) == CASE t.kind = "or" -> UNION {ArrayAlts(t.items[i]) : i \in DOMAIN t.items}
+                  [] t.kind = "array" -> {t}
+                  [] t.kind = "reference" /\ t.name \in AName /\ t.name # "LSPAny" -> ArrayAlts(ADef[t.name].type)
+                  [] OTHER -> {}
+ArrayUnion(r) == r.kind = "response" /\ "result" \in DOMAIN ReqDef[r.name] /\ Cardinality(ArrayAlts(ReqDef[r.name].result)) >= 2
+KindOK(r) == RootSel = "all" \/ (RootSel = "arrayunion" /\ ArrayUnion(r)) \/ RootSel = r.kind \/ (RootSel = "unionholder" /\ UnionHolder(r))
              \/ (RootSel = "named" /\ r.name \in RootNames)
 Roots == {RootSeq[i] : i \in {i \in DOMAIN RootSeq : i % NShards = Shard /\ KindOK(RootSeq[i])}}
 
